@@ -329,6 +329,58 @@ pub fn run_case(rep: &mut Report, fmt: Fmt, seed: u64, index: u64, verbose: bool
                 }
             }
         }
+        // the other public entry points are documented as shorthands: they must agree with the ones used above
+        if index % 4 == 0 {
+            let mut probes: Vec<(&str, Result<Result<Option<J>, String>, crate::report::PanicInfo>)> = vec![];
+            let dumpd = |d: rbx_dom_weak::WeakDom| {
+                let mut j = canon::with_nan_class(nan_class, || canon::dump_decoded(&d));
+                canon::mask_unique_id(&mut j);
+                j
+            };
+            if fmt == Fmt::Binary {
+                probes.push(("rbx_binary::Deserializer::new().deserialize", catch(|| rbx_binary::Deserializer::new().deserialize(&bytes[..]).map(|d| Some(dumpd(d))).map_err(|e| e.to_string()))));
+                if vname == comp_name(CompressionType::Lz4) {
+                    probes.push(("rbx_binary::to_writer", catch(|| {
+                        let mut v = vec![];
+                        rbx_binary::to_writer(&mut v, &built.dom, &sel_refs).map_err(|e| e.to_string())?;
+                        if v != bytes {
+                            return Err(format!("{} bytes, Serializer::new().serialize gives {}", v.len(), bytes.len()));
+                        }
+                        Ok(None)
+                    })));
+                }
+            } else {
+                let text = String::from_utf8_lossy(&bytes).into_owned();
+                probes.push(("rbx_xml::from_str", catch(|| rbx_xml::from_str(&text, xml_options(xml_mode).1).map(|d| Some(dumpd(d))).map_err(|e| e.to_string()))));
+                if xml_mode == XmlMode::Default {
+                    probes.push(("rbx_xml::from_reader_default", catch(|| rbx_xml::from_reader_default(&bytes[..]).map(|d| Some(dumpd(d))).map_err(|e| e.to_string()))));
+                    probes.push(("rbx_xml::from_str_default", catch(|| rbx_xml::from_str_default(&text).map(|d| Some(dumpd(d))).map_err(|e| e.to_string()))));
+                    probes.push(("rbx_xml::to_writer_default", catch(|| {
+                        let mut v = vec![];
+                        rbx_xml::to_writer_default(&mut v, &built.dom, &sel_refs).map_err(|e| e.to_string())?;
+                        if v != bytes {
+                            return Err(format!("{} bytes, to_writer with default options gives {}", v.len(), bytes.len()));
+                        }
+                        Ok(None)
+                    })));
+                }
+            }
+            let mut base = dump.clone();
+            canon::mask_unique_id(&mut base);
+            for (name, out) in probes {
+                rep.count(&format!("entry-points.{}", name));
+                let problem = match out {
+                    Err(p) => Some(format!("panicked: {}", p.msg)),
+                    Ok(Err(e)) => Some(e),
+                    Ok(Ok(Some(j))) => canon::diff(&base, &j).map(|(path, a, b)| format!("decodes differently at {}: {} / {}", path, a, b)),
+                    Ok(Ok(None)) => None,
+                };
+                if let Some(pr) = problem {
+                    violated = true;
+                    rep.violation(&format!("{}:entry-point:{}", prop, name), &format!("{} disagrees with the entry point it abbreviates: {}", name, pr), replay.clone(), detail_base.clone());
+                }
+            }
+        }
         match canon::with_nan_class(nan_class, || expect::compare(&exp, &dump, fmt == Fmt::Binary)) {
             None => rep.count("outcome.ok"),
             Some(m) => {
